@@ -4,7 +4,7 @@
 (* ScribbleReturned -> Observe for every structure in the property's list, *)
 (* every key-type pair, whole-buffer and per-region overwrite histories.   *)
 (***************************************************************************)
-EXTENDS Enc, Ref, GenUtil, TLC, Json
+EXTENDS Enc, J_C05, GenUtil, TLC, Json
 CONSTANTS Tier, Seed, OutFile
 Thorough == Tier = "thorough"
 H == "v"
@@ -71,7 +71,27 @@ SetVecs ==
   \o Concat(Cross2(DestPairs, << FALSE, TRUE >>, LAMBDA p, off : All("ReadLeaseSet2", LS2W(p, off), << >>, "ls2/" \o ToString(p[1]) \o "/" \o ToString(p[2]) \o (IF off THEN "/off" ELSE ""), Chunks(LS2W(p, off), 8))))
   \o Concat(Cross2(DestPairs, << FALSE, TRUE >>, LAMBDA p, off : All("ReadMetaLeaseSet", MetaW(p, off), << >>, "meta/" \o ToString(p[1]) \o "/" \o ToString(p[2]) \o (IF off THEN "/off" ELSE ""), Chunks(MetaW(p, off), 8))))
   \o Concat(Cross2(<< 11, 7, 0, 1 >>, << FALSE, TRUE >>, LAMBDA st, off : All("ReadEncryptedLeaseSet", ELSW(st, off), << >>, "els/" \o ToString(st) \o (IF off THEN "/off" ELSE ""), Chunks(ELSW(st, off), 8))))
-Vecs == IdentVecs \o CertVecs \o SigVecs \o OffVecs \o LeaseVecs \o SetVecs
+\* structures that really verify: the outcome of Verify() is part of every observation, so a check that runs over memory the caller
+\* still owns shows up after the overwrite
+RdS(sh, cls) == [op |-> "ReadSigned", h |-> H, cls |-> cls] @@ sh
+SignedSession(sh, cls) ==
+  LET n == Len(sh.base)  fn == sh.fn IN
+  << [ops |-> << RdS(sh, cls), Ob(fn, cls), Sc(0, n), Ob(fn, cls \o "|whole"), ScRet, Ob(fn, cls \o "|whole|returned") >>],
+     [ops |-> << RdS(sh, cls), Ob(fn, cls) >> \o Concat([i \in 1..4 |-> << Sc(Chunks(sh.base, 4)[i][1], Chunks(sh.base, 4)[i][2]), Ob(fn, cls \o "|chunk" \o ToString(i)) >>])] >>
+T4s == << 101, 36, 248, 0 >>
+\* (empty options: the options mapping of a LeaseSet2 / MetaLeaseSet is outside the property's list, and a parsed mapping does keep
+\*  pointing into the buffer it was read from, which Verify() would then reflect; RouterInfo is outside the list altogether)
+SignedVecs ==
+  Concat(SeqMap(LAMBDA st : 
+    SignedSession(SignedShape("ReadLeaseSet", EncLeaseSet(EncIdentity("key", st, 4, 2), st, 2, << EncLease(1, T4s, Zeros(8)), EncLease(2, T4s, Zeros(8)) >>, 5), st, 0), "signed/ls/" \o ToString(st))
+    \o SignedSession(SignedShape("ReadLeaseSet2", EncLS2(EncIdentity("key", st, 4, 2), T4s, << 2, 88 >>, 0, << >>, << >>, 1, << EncEncKey(4, 32, Fill(32, 1)) >>, 1, << EncLease2(1, T4s, T4s) >>, st, 5), st, 0), "signed/ls2/" \o ToString(st))
+    \o SignedSession(SignedShape("ReadLeaseSet2", EncLS2(EncIdentity("key", st, 4, 2), T4s, << 2, 88 >>, 1, EncOffline(T4s, 7, st, 4), << >>, 2, << EncEncKey(4, 32, Fill(32, 1)), EncEncKey(0, 256, Fill(256, 2)) >>, 2, << EncLease2(1, T4s, T4s), EncLease2(2, T4s, T4s) >>, 7, 5), st, 0), "signed/ls2off/" \o ToString(st))
+    \o SignedSession(SignedShape("ReadMetaLeaseSet", EncMeta(EncIdentity("key", st, 4, 2), T4s, << 2, 88 >>, 0, << >>, << >>, 1, << EncMetaEntry(1, 3, T4s, 1, << >>) >>, st, 5), st, 0), "signed/meta/" \o ToString(st))
+    \o SignedSession(SignedShape("ReadMetaLeaseSet", EncMeta(EncIdentity("key", st, 4, 2), T4s, << 2, 88 >>, 1, EncOffline(T4s, 7, st, 4), << >>, 2, << EncMetaEntry(1, 3, T4s, 1, << >>), EncMetaEntry(2, 5, T4s, 2, << >>) >>, 7, 5), st, 0), "signed/metaoff/" \o ToString(st)),
+    << 7, 11 >>))
+  \o SignedSession(SignedShape("ReadEncryptedLeaseSet", EncELS(11, T4s, << 2, 88 >>, 0, << >>, 100, Fill(100, 2), 11, 5), 11, 0), "signed/els/11")
+  \o SignedSession(SignedShape("ReadEncryptedLeaseSet", EncELS(11, T4s, << 2, 88 >>, 1, EncOffline(T4s, 7, 11, 4), 100, Fill(100, 2), 7, 5), 11, 0), "signed/elsoff/11")
+Vecs == SignedVecs \o IdentVecs \o CertVecs \o SigVecs \o OffVecs \o LeaseVecs \o SetVecs
 VARIABLE done
 Init == done = FALSE
 Next == ~done /\ ndJsonSerialize(OutFile, Vecs) /\ PrintT(<< "GENERATED", Len(Vecs) >>) /\ done' = TRUE
